@@ -58,6 +58,8 @@ pub struct SessionOut {
     pub preempts_fired: u64,
     /// events at atomic instructions of the library (a subset of `events`)
     pub atomic_events: u64,
+    /// per thread: which of its events (1-based indices) were atomic instructions (at most 96 per thread are recorded)
+    pub atomic_at: Vec<Vec<u64>>,
 }
 
 const NOBODY: u32 = u32::MAX;
@@ -74,6 +76,9 @@ struct Inner {
     single_steps: u64,
     preempts_fired: u64,
     atomic_events: u64,
+    /// per thread: the event indices that were atomic instructions (the first 96 of them)
+    atomic_idx: [[u32; 96]; MAX_THREADS],
+    atomic_n: [usize; MAX_THREADS],
 }
 struct Session {
     turn: AtomicU32,
@@ -341,7 +346,15 @@ fn on_breakpoint(bp: &'static crate::atomics::Bp, gregs: *mut i64) {
                 v
             })
             .unwrap_or(0);
-        unsafe { (*s.inner.get()).atomic_events += 1 };
+        unsafe {
+            let inner = &mut *s.inner.get();
+            inner.atomic_events += 1;
+            let (t, k) = (me as usize % MAX_THREADS, inner.atomic_n[me as usize % MAX_THREADS]);
+            if k < 96 {
+                inner.atomic_idx[t][k] = ev as u32;
+                inner.atomic_n[t] = k + 1;
+            }
+        }
         let no_preempt = NO_PREEMPT.try_with(|c| c.get()).unwrap_or(true) || IN_ALLOC.try_with(|c| c.get()).unwrap_or(true);
         let stepping = STEPPING.try_with(|c| c.get()).unwrap_or(false);
         if !no_preempt && !stepping && NEXT_EVENT.try_with(|c| c.get()).unwrap_or(u64::MAX) <= ev {
@@ -411,6 +424,10 @@ fn run_calls(calls: &[Call], outs: &mut Vec<Out>, entropy: Xo) {
 
 /// Run one session under the simulator's scheduler.
 pub fn run_controlled(threads: &[Vec<Call>], seed: u64, preempts: &[Preempt]) -> SessionOut {
+    run_controlled_from(threads, seed, preempts, None)
+}
+/// ... with the thread that gets the baton first given by the caller (None: drawn from the seed)
+pub fn run_controlled_from(threads: &[Vec<Call>], seed: u64, preempts: &[Preempt], starts: Option<usize>) -> SessionOut {
     install_trap_handler();
     crate::atomics::arm();
     let n = threads.len().min(MAX_THREADS);
@@ -419,9 +436,12 @@ pub fn run_controlled(threads: &[Vec<Call>], seed: u64, preempts: &[Preempt]) ->
         turn: AtomicU32::new(NOBODY),
         n,
         done: [const { AtomicBool::new(false) }; MAX_THREADS],
-        inner: UnsafeCell::new(Inner { rng: Xo::derive(seed, &[0x5C4ED]), order_digest: 0xcbf29ce484222325, switches: 0, lock_waits: 0, single_steps: 0, preempts_fired: 0, atomic_events: 0 }),
+        inner: UnsafeCell::new(Inner { rng: Xo::derive(seed, &[0x5C4ED]), order_digest: 0xcbf29ce484222325, switches: 0, lock_waits: 0, single_steps: 0, preempts_fired: 0, atomic_events: 0, atomic_idx: [[0; 96]; MAX_THREADS], atomic_n: [0; MAX_THREADS] }),
     };
-    let first = Xo::derive(seed, &[0xF125]).below(n as u64) as u32;
+    let first = match starts {
+        Some(t) if t < n => t as u32,
+        _ => Xo::derive(seed, &[0xF125]).below(n as u64) as u32,
+    };
     let mut outs: Vec<Vec<Out>> = (0..n).map(|i| Vec::with_capacity(threads[i].len())).collect();
     let mut events = vec![0u64; n];
     let slot = crate::rec::worker_slot();
@@ -466,7 +486,7 @@ pub fn run_controlled(threads: &[Vec<Call>], seed: u64, preempts: &[Preempt]) ->
         }
     });
     let inner = session.inner.into_inner();
-    SessionOut { outs, events, switches: inner.switches, lock_waits: inner.lock_waits, single_steps: inner.single_steps, order_digest: inner.order_digest, preempts_fired: inner.preempts_fired, atomic_events: inner.atomic_events }
+    SessionOut { outs, events, switches: inner.switches, lock_waits: inner.lock_waits, single_steps: inner.single_steps, order_digest: inner.order_digest, preempts_fired: inner.preempts_fired, atomic_events: inner.atomic_events, atomic_at: (0..n).map(|t| inner.atomic_idx[t][..inner.atomic_n[t]].iter().map(|e| *e as u64).collect()).collect() }
 }
 
 /// The same caller threads released from a barrier and interleaved by the operating system; every thread runs its
